@@ -1,7 +1,7 @@
 (* C02 -- Declarators decode to the C++ type they denote. *)
 From Coq Require Import NArith List Bool.
 Import ListNotations.
-From CXV Require Import Gen.TokTy Parse.Balanced Parse.BalancedThms Parse.Declarator Parse.DeclSpec Parse.DeclThms.
+From CXV Require Import Gen.TokTy Parse.Balanced Parse.BalancedThms Parse.Declarator Parse.DeclSpec Parse.DeclThms Parse.DeclPins.
 Open Scope N_scope.
 
 (* For every legal type tree t (wf: the C++ rules on pointers, references,
@@ -45,6 +45,12 @@ Theorem cv_ptr_or_fn_decodes : forall ls acc core rest,
      (DOk (wrap acc (mainl ls), P (traill ls) core ++ rest)).
 Proof. intros ls. exact (cvptr_P (length ls) ls (le_n _)). Qed.
 
+(* the code the model mirrors is the pinned one, and the token sets it tests
+   the stream for are the sets the model hard-codes (regenerated on every run) *)
+Theorem declarator_code_is_the_modelled_one : decl_sets_ok = true.
+Proof. exact decl_sets_ok_true. Qed.
+
+Print Assumptions declarator_code_is_the_modelled_one.
 Print Assumptions declarator_decodes.
 Print Assumptions parameter_decodes.
 Print Assumptions parameter_list_decodes.
